@@ -17,6 +17,12 @@ NOTES = ['every (N, r) with 1 <= r <= N <= 8 (thorough: <= 12), every T in 1..4,
          'stream floatrule: the rule returns value/4.0 into an int automaton; model store = truncation toward zero',
          'stream bigint: int64 / uint64 automata with states and rule results above 2**53 (exact in Z on the model side)',
          'the dtype name of the result and (scribble stream) the caller array after the call are compared inside Coq too',
+         'streams float/overflow (float32 / float16, results beyond the range -> inf, below the smallest subnormal -> '
+         '0.0 / -0.0) and float/signed_zero (float64 / float32 with -0.0; a later step observes the sign): the Z-valued '
+         'model cannot express inf or -0.0, so these cases emit the trivially agreeing Coq constructor CNoModel and are '
+         'DECIDED BY THE PYTHON ORACLE: bitwise comparison with an independent reference ring update in c01.py '
+         '(_reference_rows), all three memoize modes for pure rules, both timesteps forms; an exception is a failure',
+         'every case: np.geterr() after the call must equal NumPy\'s default error state',
          'stream scribble: the rule overwrites its neighbourhood argument in place after computing its value '
          '(twins.Scribble); the model passes values, so the model-side rule is the underlying one']
 ASSUMPTIONS = ['rule results are representable in the automaton dtype (out-of-range results are outside the property)',
@@ -35,7 +41,9 @@ class StrictLogged1:
     def __init__(self, f):
         self.f, self.log, self.exact = f, [], True
 
-    def __call__(self, n, c, t):
+    def __call__(self, nbhd_arg, cell_arg, step_arg):
+
+        n, c, t = nbhd_arg, cell_arg, step_arg   # not named (n, c, t): the library must call rules positionally
         vals = []
         for x in np.asarray(n).ravel().tolist():
             if isinstance(x, float) and not x.is_integer():
@@ -52,8 +60,170 @@ class Scaled:
     def __init__(self, f, scale):
         self.f, self.scale = f, scale
 
-    def __call__(self, n, c, t):
+    def __call__(self, nbhd_arg, cell_arg, step_arg):
+
+        n, c, t = nbhd_arg, cell_arg, step_arg   # not named (n, c, t): the library must call rules positionally
         return self.f(n, c, t) / float(self.scale)
+
+
+# ---------------------------------------------------------------- float-valued rules (oracle-only buckets)
+# the floating-point error state of a fresh NumPy (what np.geterr() returns before cellpylib is imported);
+# importing or calling the library must leave it alone
+DEFAULT_ERR = {'divide': 'warn', 'over': 'warn', 'under': 'ignore', 'invalid': 'warn'}
+
+
+class FloatRule:
+    """rules on float automata; all arithmetic on Python floats (no NumPy scalar arithmetic inside the rule).
+    fscript: the i-th call returns vs[i] (stateful);  fmul: float(n[r]) * k;  fmaxmul: max(n) * k;
+    neg: -n[r];  csz: copysign(0.0, n[0] - 1);  obs: zero -> copysign(1, zero), positive -> -0.0, negative -> 0.0;
+    tdep: neg at t = 1, obs from t = 2 on."""
+    def __init__(self, spec, r):
+        self.spec, self.r, self.i = spec, r, 0
+
+    def __call__(self, nbhd_arg, cell_arg, step_arg):
+        import math
+        n, c, t = nbhd_arg, cell_arg, step_arg   # not named (n, c, t): the library must call rules positionally
+        fam = self.spec['fam']
+        x = float(n[self.r])
+        if fam == 'fscript':
+            vs = self.spec['vs']
+            v = vs[self.i] if self.i < len(vs) else 0.0
+            self.i += 1
+            return v
+        if fam == 'fmul':
+            return x * self.spec['k']
+        if fam == 'fmaxmul':
+            return max(float(y) for y in n) * self.spec['k']
+        if fam == 'neg' or (fam == 'tdep' and int(t) == 1):
+            return -x
+        if fam == 'csz':
+            return math.copysign(0.0, float(n[0]) - 1.0)
+        # obs, and tdep from t = 2 on
+        if x == 0:
+            return math.copysign(1.0, x)
+        return -0.0 if x > 0 else 0.0
+
+
+def _ref_float_value(spec, i, window, r, t):
+    """independent re-statement of the FloatRule families for the reference ring update (window: Python floats)"""
+    import math
+    fam = spec['fam']
+    mid = window[r]
+    if fam == 'fscript':
+        return spec['vs'][i] if i < len(spec['vs']) else 0.0
+    if fam == 'fmul':
+        return mid * spec['k']
+    if fam == 'fmaxmul':
+        return max(window) * spec['k']
+    if fam == 'csz':
+        return 0.0 if window[0] - 1.0 >= 0 else -0.0
+    if fam == 'neg' or (fam == 'tdep' and t == 1):
+        return math.copysign(abs(mid), -math.copysign(1.0, mid))
+    if mid == 0:
+        return 1.0 if math.copysign(1.0, mid) > 0 else -1.0
+    return -0.0 if mid > 0 else 0.0
+
+
+def _reference_rows(c):
+    """the property, executed: row t, cell c = dtype(rule(window of row t-1 at (c-r+k) mod N, c, t)); the cast is
+    NumPy's float cast with the floating-point error state ignored (overflow -> inf, underflow -> 0.0 / -0.0)"""
+    ty = np.dtype(c['dtype']).type
+    r, T = c['r'], c['T']
+    with np.errstate(all='ignore'):
+        rows = [[ty(x) for x in row] for row in c['hist']]
+        cur = rows[-1]
+        N = len(cur)
+        i = 0
+        for t in range(1, T):
+            nxt = []
+            for cell in range(N):
+                window = [float(cur[(cell - r + k) % N]) for k in range(2 * r + 1)]
+                nxt.append(ty(_ref_float_value(c['frule'], i, window, r, t)))
+                i += 1
+            rows.append(nxt)
+            cur = nxt
+    return [b''.join(x.tobytes() for x in row).hex() for row in rows]
+
+
+def _float_cases(rng, tier):
+    reps = 1 if tier == 'quick' else 6
+    memo_pure = ['False', 'True', 'recursive']
+    for _ in range(reps):
+        # float/overflow: results beyond the dtype's range and below its smallest subnormal
+        for dtype in ('float32', 'float16'):
+            big = {'float32': [1e40, -1e40, 3.5e38, 1e300], 'float16': [1e40, -1e40, 70000.0, -65520.0]}[dtype]
+            tiny = {'float32': [1e-50, -1e-50, 1e-46, 1.4e-45], 'float16': [1e-50, -1e-50, 1e-8, 6e-8]}[dtype]
+            for dyn in (False, True):
+                for fam in ('fscript', 'fmul/big', 'fmul/tiny', 'fmaxmul'):
+                    for memo in (memo_pure if fam != 'fscript' else ['False']) * 2:
+                        N = rng.randint(1, 6)
+                        r = rng.randint(1, N)
+                        T = rng.randint(2, 4)
+                        hist = [[rng.choice([1.0, -1.0, 2.0, 0.5, -1.5, 0.0, 3.0]) for _ in range(N)]
+                                for _ in range(rng.randint(1, 2))]
+                        if fam == 'fscript':
+                            fr = {'fam': 'fscript', 'vs': [rng.choice(big + tiny + [1.5, -2.0, 0.1]) for _ in range(N * (T - 1))]}
+                        elif fam == 'fmul/big':
+                            fr = {'fam': 'fmul', 'k': rng.choice(big)}
+                        elif fam == 'fmul/tiny':
+                            fr = {'fam': 'fmul', 'k': rng.choice(tiny)}
+                        else:
+                            fr = {'fam': 'fmaxmul', 'k': rng.choice(big + tiny)}
+                        yield {'kind': 'float/overflow/%s/%s/%s/memoize=%s' % (dtype, fam, 'callable' if dyn else 'fixed', memo),
+                               'nomodel': True, 'dtype': dtype, 'hist': hist, 'T': T, 'r': r, 'dyn': dyn, 'memoize': memo,
+                               'frule': fr}
+        # float/signed_zero: -0.0 and 0.0 are different states; a later step observes the sign
+        for dtype in ('float64', 'float32'):
+            for dyn in (False, True):
+                for fam in ('neg', 'csz', 'obs', 'tdep'):
+                    for memo in (memo_pure if fam != 'tdep' else ['False']):
+                        for _k in range(2):
+                            N = rng.randint(2, 6)
+                            r = rng.randint(1, N)
+                            T = rng.randint(3, 5)
+                            row = [rng.choice([0.0, -0.0, 1.0, -1.0, 2.0]) for _ in range(N)]
+                            row[rng.randrange(N)] = 0.0
+                            row[rng.randrange(N)] = -0.0 if rng.random() < 0.5 else 1.0
+                            hist = [[rng.choice([0.0, -0.0, 1.0]) for _ in range(N)] for _ in range(rng.randint(0, 1))] + [row]
+                            yield {'kind': 'float/signed_zero/%s/%s/%s/memoize=%s' % (dtype, fam, 'callable' if dyn else 'fixed', memo),
+                                   'nomodel': True, 'dtype': dtype, 'hist': hist, 'T': T, 'r': r, 'dyn': dyn,
+                                   'memoize': memo, 'frule': {'fam': fam}}
+
+
+def _run_nomodel(c):
+    import warnings
+    import cellpylib as cpl
+    ca = np.array(c['hist'], dtype=c['dtype'])
+    rule = FloatRule(c['frule'], c['r'])
+    T = c['T']
+    ts = (lambda ca_, t: t < T) if c['dyn'] else T
+    memo = {'False': False, 'True': True, 'recursive': 'recursive'}[c['memoize']]
+    with warnings.catch_warnings():
+        warnings.simplefilter('ignore')      # warnings only; the floating-point error STATE is left as the library set it
+        res = call_impl(lambda: cpl.evolve(ca, timesteps=ts, apply_rule=rule, r=c['r'], memoize=memo))
+    if res[0] != 'ok':
+        return [res[0], res[1], {'geterr': dict(np.geterr())}]
+    out = np.asarray(res[1])
+    return ['ok', {'rows_hex': [row.tobytes().hex() for row in out] if out.ndim == 2 else None,
+                   'shape': [int(x) for x in out.shape], 'dtype': str(out.dtype), 'geterr': dict(np.geterr())}]
+
+
+def _oracle_nomodel(c, obs):
+    if obs[0] != 'ok':
+        return 'evolve raised %s; the library should store inf / 0.0 / -0.0 in the automaton dtype' % obs[1]
+    o = obs[1]
+    H, N = len(c['hist']), len(c['hist'][0])
+    if o['dtype'] != c['dtype']:
+        return 'result dtype %s differs from the automaton dtype %s' % (o['dtype'], c['dtype'])
+    if o['shape'] != [H + c['T'] - 1, N]:
+        return 'result shape %s, expected %s' % (o['shape'], [H + c['T'] - 1, N])
+    want = _reference_rows(c)
+    for i, (a, b) in enumerate(zip(o['rows_hex'], want)):
+        if a != b:
+            ty = np.dtype(c['dtype'])
+            return 'row %d is %s (bit pattern %s), the reference ring update gives %s (%s)' % (
+                i, np.frombuffer(bytes.fromhex(a), dtype=ty).tolist(), a, np.frombuffer(bytes.fromhex(b), dtype=ty).tolist(), b)
+    return None
 
 
 # ---------------------------------------------------------------- generators
@@ -188,6 +358,9 @@ def generate(rng, tier):
         yield {'kind': 'bigint/%s/%s/%s' % (dtype, fam, 'callable' if dyn else 'fixed'), 'dyn': dyn, 'scale': 1,
                'dtype': dtype, 'hist': [[_bigcell(rng, dtype) for _ in range(N)] for _ in range(H)], 'T': T, 'r': r,
                'rule': _bigrule(rng, fam, N, r, T, dtype), 'log': True}
+    # (7) oracle-only: float overflow / underflow and signed zeros (outside the Z-valued model)
+    for c in _float_cases(rng, tier):
+        yield c
 
 
 def _bigcell(rng, dtype):
@@ -225,6 +398,8 @@ def _bigrule(rng, fam, N, r, T, dtype):
 # ---------------------------------------------------------------- implementation
 def run_impl(c):
     import cellpylib as cpl
+    if c.get('nomodel'):
+        return _run_nomodel(c)
     ca = np.array(c['hist'], dtype=c['dtype'])
     base = make_rule(c['rule'])
     if c['scale'] != 1:
@@ -236,7 +411,7 @@ def run_impl(c):
     ts = (lambda ca_, t: t < T) if c['dyn'] else T
     res = call_impl(lambda: cpl.evolve(ca, timesteps=ts, apply_rule=rule, r=c['r'], memoize=False))
     if res[0] != 'ok':
-        return list(res)
+        return list(res) + [{'geterr': dict(np.geterr())}]
     out = np.asarray(res[1])
     flat = [float(x) for x in out.ravel().tolist()]
     integral = all(x == x and abs(x) != float('inf') and x == int(x) for x in flat) and rule.exact
@@ -246,7 +421,8 @@ def run_impl(c):
     return ['ok', {'array': arr, 'integral': integral, 'shape': [int(s) for s in out.shape], 'dtype': str(out.dtype),
                    'log': [[n, cc, tt] for (n, cc, tt) in rule.log],
                    # the caller's array after the call (compared for the rules that write into their argument)
-                   'after': _exact_rows(ca) if c.get('scribble') else None}]
+                   'after': _exact_rows(ca) if c.get('scribble') else None,
+                   'geterr': dict(np.geterr())}]
 
 
 def _exact_rows(a):
@@ -268,6 +444,8 @@ def _integral_rows(rows):
 
 
 def to_coq(c, obs):
+    if c.get('nomodel'):
+        return 'CNoModel'
     if obs[0] == 'ok' and (obs[1]['array'] is None or not obs[1]['integral']
                            or (obs[1].get('after') is not None and not _integral_rows(obs[1]['after']))):
         o = '(Raise OtherError)'       # not a 2-D integer-valued array: cannot agree with the model
@@ -276,7 +454,7 @@ def to_coq(c, obs):
         after = 'None' if obs[1].get('after') is None else '(Some %s)' % cgrid(obs[1]['after'])
         o = '(Ok (MkObs %s %s %s %s))' % (cgrid(obs[1]['array']), lg, _CDTYPE.get(obs[1]['dtype'], 'DOther'), after)
     else:
-        o = cres(obs, str)
+        o = cres(obs[:2], str)
     return '(CEvolve %s %s %s %s %s %s %s %s)' % (cbool(c['dyn']), cz(c['scale']), _CDTYPE[c['dtype']], cgrid(c['hist']),
                                                 cnat(c['T']), cnat(c['r']), coq_rule_spec(c['rule']), o)
 
@@ -304,6 +482,19 @@ def _value(rule, i, n, cidx, t):
 
 
 def oracle(c, obs):
+    """the property's sentence on the implementation's output first (a concrete failing input is the better
+    report); then the process-wide floating-point error state"""
+    msg = _oracle_nomodel(c, obs) if c.get('nomodel') else _oracle_main(c, obs)
+    if msg:
+        return msg
+    ge = (obs[1] if obs[0] == 'ok' else (obs[2] if len(obs) > 2 else {})).get('geterr')
+    if ge is not None and ge != DEFAULT_ERR:
+        return ('after the call np.geterr() is %s; importing / calling the library must leave the process-wide '
+                'floating-point error state at NumPy\'s default %s' % (ge, DEFAULT_ERR))
+    return None
+
+
+def _oracle_main(c, obs):
     """Evaluate the sentence of C01 on what the implementation returned: row t, cell c is the rule's value on
     the window [(c - r + k) mod N] of row t-1 with (c, t), t 1-based; the rule was consulted once per cell,
     ascending, steps ascending; the result has the dtype and the width of the input and extends it."""
@@ -341,6 +532,8 @@ def oracle(c, obs):
 
 
 def shrink(c):
+    if c.get('nomodel'):
+        return
     hist, T, r = c['hist'], c['T'], c['r']
     N = len(hist[0])
 
